@@ -7,12 +7,12 @@
     Nodes are addressed by their path from the root (slot indexes; Model.Reroot.paths lists
     them in the order of Tree.Nodes()); [vec_at t vt p] is the count vector the model holds at
     that node ([nth y v 0 = 1]: state y is reported there).
-    Proofs in Proofs/Parsimony{Vec,Hartigan,Reroot,Main,Ctx,Down,Final,Acctran,Tips,Unamb,Deltran,Inst,Embed,Site,Random,Misc}.v. *)
+    Proofs in Proofs/Parsimony{Vec,Hartigan,Reroot,Main,Ctx,Down,Final,Acctran,Tips,Unamb,Deltran,Inst,Embed,Site,Random,Misc,Multi,Front,Delay}.v. *)
 From Coq Require Import String ZArith QArith Bool Arith List.
 From GT Require Import Base.UTree Spec.Obs Spec.Parsimony Model.Reroot Model.Parsimony Model.ParsimonyRand
      Proofs.ParsimonyVec Proofs.ParsimonyHartigan Proofs.ParsimonyReroot Proofs.ParsimonyMain
      Proofs.ParsimonyCtx Proofs.ParsimonyDown Proofs.ParsimonyFinal Proofs.ParsimonyAcctran
-     Proofs.ParsimonyTips Proofs.ParsimonyUnamb Proofs.ParsimonyDeltran Proofs.ParsimonyInst Proofs.ParsimonyEmbed Proofs.ParsimonySite Proofs.ParsimonyRandom Proofs.ParsimonyMisc.
+     Proofs.ParsimonyTips Proofs.ParsimonyUnamb Proofs.ParsimonyDeltran Proofs.ParsimonyInst Proofs.ParsimonyEmbed Proofs.ParsimonySite Proofs.ParsimonyRandom Proofs.ParsimonyMisc Proofs.ParsimonyMulti Proofs.ParsimonyFront Proofs.ParsimonyDelay.
 Import ListNotations.
 Local Close Scope Q_scope.
 Local Open Scope string_scope.
@@ -494,3 +494,97 @@ Theorem C12_acr_map_keys_unique :
   forall t alpha vs, NoDup (map fst (acr_map_of t alpha vs)).
 Proof. exact acr_map_keys_unique. Qed.
 Print Assumptions C12_acr_map_keys_unique.
+
+(** * the sequence variant with random resolution: the draws are made node by node (all the
+      sites of a node before the next node); projected on site j, the run is the one-character
+      run with random resolution on the list of the draws made for that site *)
+Theorem C12_rr_asr_site :
+  forall (S : Type) (draw : nat -> S -> nat * S),
+    (forall b s, 0 < b -> fst (draw b s) < b) ->
+    forall t aln a s r s' j,
+      2 <= degree t ->
+      parsimony_asr_r S draw t aln a s = Ok (r, s') -> j < aln_length aln ->
+      exists cs,
+        nth j (asr_vecs r) [] = vflat (rr_vt (list nat) draw_list (asr_tipvec aln j) 6 t true a cs) /\
+        nth j (asr_steps r) 0 = snd (parsimony true (asr_tipvec aln j) 6 a t).
+Proof. exact parsimony_asr_r_site. Qed.
+Print Assumptions C12_rr_asr_site.
+
+(** per site: the step count is the minimum (unchanged by the random resolution); one state at
+    every inner node; DOWNPASS / DELTRAN states occur in most-parsimonious labellings; the
+    ACCTRAN labelling is most parsimonious *)
+Theorem C12_rr_asr_site_props :
+  forall (S : Type) (draw : nat -> S -> nat * S),
+    (forall b s, 0 < b -> fst (draw b s) < b) ->
+    forall t aln a s r s' j,
+      wf t = true -> 2 <= degree t ->
+      parsimony_asr_r S draw t aln a s = Ok (r, s') -> j < aln_length aln ->
+      (forall n, In n (leaves t) -> exists x, nth x (asr_tipvec aln j n) 0 = 1) ->
+      exists vt,
+        nth j (asr_vecs r) [] = vflat vt /\
+        is_mincost (asr_ts aln j) t (nth j (asr_steps r) 0) /\
+        (forall w, In w (vinners vt) -> single w) /\
+        (a = Downpass \/ a = Deltran ->
+         forall q x v, node_at t q = Some x -> is_leaf x = false -> vec_at t vt q = Some v ->
+                       forall y, nth y v 0 = 1 -> opt_state_at (asr_ts aln j) t q y) /\
+        (a = Acctran -> optimal (asr_ts aln j) t (lab_of t vt)).
+Proof. exact parsimony_asr_r_site_props. Qed.
+Print Assumptions C12_rr_asr_site_props.
+
+(** * the front ends *)
+(** ParsimonyAcr refuses exactly when a tip has no state, with the message naming the first
+    such tip in the depth-first order of the up-pass; with random resolution too, before any draw *)
+Theorem C12_acr_error_iff :
+  forall t m a e,
+    parsimony_acr t m a = Err e <->
+    exists n, first_missing m t n /\ e = "Tip " ++ n ++ " does not exist in the tip/state mapping file".
+Proof. exact acr_error_iff. Qed.
+Print Assumptions C12_acr_error_iff.
+
+Theorem C12_acr_r_error_same :
+  forall (S : Type) (draw : nat -> S -> nat * S) t m a s,
+    (exists e, parsimony_acr_r S draw t m a s = Err e) <-> (exists e, parsimony_acr t m a = Err e).
+Proof. exact acr_r_error_same. Qed.
+Print Assumptions C12_acr_r_error_same.
+
+(** ALGO_NONE: accepted by ParsimonyAcr (the up-pass vectors are returned), rejected by
+    ParsimonyAsr although cmd/asr.go offers it; a missing sequence is reported first.
+    (Any other algorithm number is outside the model's [algo] type: cmd maps the four names.) *)
+Theorem C12_acr_none_is_uppass :
+  forall skip tv k t, is_tip t = false ->
+    fst (parsimony skip tv k NoPass t) = fst (uppass tv k t).
+Proof. exact acr_none_is_uppass. Qed.
+Print Assumptions C12_acr_none_is_uppass.
+
+Theorem C12_asr_error_cases :
+  forall t aln a,
+    match find (fun n => match lookup n aln with Some _ => false | None => true end) (all_tip_names t) with
+    | Some n => parsimony_asr t aln a = Err ("sequence " ++ n ++ " does not exist in the alignment") /\
+                first_missing aln t n
+    | None => match a with
+              | NoPass => parsimony_asr t aln a = Err "parsimony algorithm 3 unkown"
+              | _ => exists r, parsimony_asr t aln a = Ok r
+              end
+    end.
+Proof. exact asr_error_cases. Qed.
+Print Assumptions C12_asr_error_cases.
+
+(** the step list of ParsimonyAsr has one entry per site and one more, always 0 *)
+Theorem C12_asr_steps_trailing_zero :
+  forall t aln a r, parsimony_asr t aln a = Ok r ->
+    length (asr_steps r) = aln_length aln + 1 /\ nth (aln_length aln) (asr_steps r) 1 = 0.
+Proof. exact asr_steps_trailing_zero. Qed.
+Print Assumptions C12_asr_steps_trailing_zero.
+
+(** * "delayed transformation": among the most-parsimonious labellings, those whose changes
+      are as far from the root as possible ([delayed], Proofs/ParsimonyDelay.v).  The DELTRAN sets
+      of the code are not the states of these labellings: on (a,(b,c)) with a=0, b=1, c=2 the code
+      reports the three states at the root, every delayed labelling gives it state 0 (the code
+      never resolves the root and only intersects a node with its parent's set).  Tested only,
+      on all small trees: the delayed states are inside the DELTRAN sets, and the ACCTRAN sets
+      are exactly the states of the accelerated labellings. *)
+Theorem C12_deltran_sets_are_delayed_transformation_refuted :
+  vroot (fst (parsimony false dw_tv 3 Deltran dw_tree)) = [1; 1; 1] /\
+  forall l, shape_ok dw_tree l = true -> delayed dw_ts dw_tree l -> lroot l = 0.
+Proof. exact deltran_sets_are_delayed_transformation_refuted. Qed.
+Print Assumptions C12_deltran_sets_are_delayed_transformation_refuted.
